@@ -118,3 +118,6 @@ _metaB("C16", "C16", "stash / unstash(n) for n around the stash size from outsid
 _metaB("C17", "C17", "become/unbecome from outside and inside handlers across deliveries and stop/start: handler-stack model, identity of every invoked handler.")
 _metaB("C19", "C19", "Subscribers to system topics (literal and regex) while other modules start/resume/pause/stop/deregister and the loop starts/stops: required notifications must arrive, every system-flagged event must correspond to an occurrence.")
 _metaB("C20", "C20", "Descriptor and timer sources with auto-close / dup / one-shot flags across every way a module can leave: /proc/self/fd before/after equality and ownership of closes.")
+
+CHECKS["C18"] = B("C18", 350, 6000)
+_metaB("C18", "C18", "Timed profile: token buckets of several (rate, burst) pairs, bursts of token-consuming calls separated by generated sleeps and dispatches, re-configurations with user timers present: counting bound b + r*t over every window of accepted calls on the harness clock (sound direction), EAGAIN means no effect, recovery after refill time, no limit after rate 0 or stop/start.")
